@@ -366,7 +366,7 @@ SPEC = {
     'id': 'C14',
     'rule': ('grid: every (n, m) with 1<=n<=10, 1<=m<=n+5 x spectra (separated, degenerate, clustered, Gaussian) x starts (generic, real, '
              'structural / rotated invariant subspace, eigenvector) x real/complex, Lanczos on the Hermitian matrix and Arnoldi on a general or '
-             'the same matrix; large: n in {20,50,120,300}, m<=24 and long runs m up to 96; F6 cases n=m in {32,48,64}; in situ: every lanczos/arnoldi call raised by one/two-site TDVP and DMRG sweeps (site-local and bond-local effective Hamiltonians materialised column by column, block-sparse start vectors, numiter 1..25 below and above the local dimension), by expm_krylov on general matrices, and (thorough) by the repository test-suite. The always-on relations (sizes, real alpha, '
+             'the same matrix, plus phase-structured data (i*real / -i*real matrices with real or purely imaginary start vectors, i*antisymmetric Hermitian matrices); large: n in {20,50,120,300}, m<=24 and long runs m up to 96; F6 cases n=m in {32,48,64}; in situ: every lanczos/arnoldi call raised by one/two-site TDVP and DMRG sweeps (site-local and bond-local effective Hamiltonians materialised column by column, block-sparse start vectors, numiter 1..25 below and above the local dimension), by expm_krylov on general matrices, and (thorough) by the repository test-suite. The always-on relations (sizes, real alpha, '
              'beta>0, unit norms, three-term recurrence, local orthogonality, Afunc call count, justified early return, full length when '
              'the independent re-orthogonalised Krylov dimension is >= m with margin) are demanded everywhere; and so are global '
              'orthonormality and V^H A V = T on the leading min(k, Krylov dimension) vectors (the conditioning indicator min beta_j|s_ji|/||T|| '
